@@ -74,6 +74,15 @@ func runWallet(tier string, seed int64, summaryPath, outPath string) {
 				os.WriteFile(path, bytes.Repeat([]byte{0xAB}, 300+rng.Intn(200)), 0644)
 				sum.Kinds["save.over_existing_longer_file"]++
 			}
+			// the path held ANOTHER wallet before, saved through the real code under another key: replacing a wallet must leave nothing
+			// behind that a damaged file, or the old key, could bring back
+			wOld, _ := wallet.New()
+			oldKey := make([]byte, ks)
+			rng.Read(oldKey)
+			hOld := fileoperations.New(fileoperations.Config{WalletPath: path, WalletPasswd: hex.EncodeToString(oldKey)}, aeswrapper.New())
+			if err := hOld.SaveWallet(&wOld); err == nil {
+				sum.Kinds["save.replaces_an_older_wallet"]++
+			}
 			if err := h.SaveWallet(&w); err != nil {
 				viol("save-failed", map[string]any{"err": err.Error()})
 				continue
@@ -93,7 +102,8 @@ func runWallet(tier string, seed int64, summaryPath, outPath string) {
 			}
 			sum.Evaluations++
 			sum.Kinds["pem.roundtrip"]++
-			tmp := path + ".mut"
+			tmp := path // damage happens to the wallet file itself, where it lives
+			defer os.WriteFile(path, file, 0644)
 			check := func(kind string, data []byte, pw string, klen int, detail map[string]any) {
 				os.WriteFile(tmp, data, 0644)
 				got, cls := read(tmp, pw)
@@ -103,6 +113,7 @@ func runWallet(tier string, seed int64, summaryPath, outPath string) {
 					viol(kind+"-panics", detail)
 				} else if cls == "CWallet" {
 					detail["same_wallet"] = bytes.Equal(got.Private, w.Private)
+					detail["the_replaced_wallet"] = bytes.Equal(got.Private, wOld.Private)
 					viol(kind+"-yields-wallet", detail)
 				}
 				sum.Nontrivial++
@@ -162,6 +173,8 @@ func runWallet(tier string, seed int64, summaryPath, outPath string) {
 				}
 				check("wrongkey", file, hex.EncodeToString(dk), len(dk), map[string]any{"derived_key": name, "keysize": ks})
 			}
+			// the key of the wallet that was at this path before
+			check("wrongkey", file, hex.EncodeToString(oldKey), ks, map[string]any{"key_of_replaced_wallet": true, "keysize": ks})
 			// one flipped key bit
 			fk := append([]byte{}, key...)
 			fk[rng.Intn(len(fk))] ^= 1
